@@ -84,7 +84,9 @@ def wrapper_setup(kind):
             yield st, d
 
         f = Obj('file', read=Model('file.read', file_read), write=Model('file.write', file_write))
-        b.bind('self', Obj('self', _file=f, _rate_limiter=rl))
+        me_ = Obj('self', _file=f, _rate_limiter=rl)
+        me_._class_source = (UTILS_PY, '_RateLimitedFileWrapper')          # extracted helpers: the real methods, inlined
+        b.bind('self', me_)
         if kind == 'read':
             b.sym('size', INT)
         else:
